@@ -33,13 +33,13 @@ def render_tree(t):
     return s + ")"
 
 
-def generate(family, maxw, nshards, wd, timeout=1500):
+def generate(family, maxw, nshards, wd, timeout=1500, nosimp=False, light=False):
     """Run NSHARDS TLC processes enumerating programs of FAMILY up to weight MAXW."""
     def one(sh):
         out = os.path.join(wd, "vec-%s-%d.ndjson" % (family, sh))
         r = tlc.run_tlc("Progs", constants={"MaxW": maxw, "Shard": sh, "NShards": nshards,
                                              "OutFile": out, "Family": family,
-                                             "PinnedMerge": False},
+                                             "PinnedMerge": False, "WithNoSimp": nosimp, "Light": light},
                         workers=1, timeout=timeout, heap="6g")
         return (sh, out, r)
     res = common.parallel(one, list(range(nshards)), workers=nshards)
@@ -76,7 +76,7 @@ def replay(vd, vecs, bdir, wd, pid, flavour_tag="plain", check_illformed=True,
         texts.append(txt)
         cmds.append("\t".join(["run", str(i), "max=2000,t=20" + (",tree" if "tree" in v else ""), zw.hexq(txt)]))
     for i, v in enumerate(vecs):
-        if "engns" in v:
+        if v.get("engnsok"):
             cmds.append("\t".join(["run", "n%d" % i, "max=2000,t=20,nosimp", zw.hexq(texts[i])]))
     results = zw.run_driver(drv, cmds, wd, tag="replay-" + pid + "-" + flavour_tag)
     byid = {}
@@ -179,7 +179,7 @@ def replay(vd, vecs, bdir, wd, pid, flavour_tag="plain", check_illformed=True,
 
 
 ENGINE_INVARIANTS = ["OutWithinDen", "DoneMeansAll", "DiagWithin", "OrderWhereFixed", "Lifecycle",
-                     "AllDeadAfterDestroy", "NeverOutOfFuel"]
+                     "AllDeadAfterDestroy", "NeverOutOfFuel", "Compiles", "Simplified"]
 
 
 def model_check(vd, family, maxw, workers=16, timeout=1500, pinned=False, invariants=None):
